@@ -57,6 +57,8 @@ type c12Env struct {
 var c12Shared *c12Env
 
 func init() {
+	// one application key has the shape of a vault document id (Base58 of 128 bits): a formatter must not mistake it for one
+	c12Atoms["k3"] = base58.Encode([]byte("KEY-charlie-90ab"))
 	register("C12", &Prop{Gen: c12Gen, Run: c12Run, Setup: c12SetupReal})
 }
 
